@@ -125,26 +125,73 @@ func H_C20_dirichlet_errors_later() {
 	verifReach("non-positive")
 }
 
-// H_C20_dirichlet_ge1: Dirichlet(factor, alpha...) with every shape >= 1 (Cheng's sampler above 1, the exponential at 1): n strictly positive finite components summing to factor.
-// bounds: n = 3; shapes symbolic in [1,100] (both "= 1" and "> 1" samplers, per component); factor symbolic in (0,1e6]; every outcome of the draws with at most 8 draws of math/rand per path (3 components need 3..6 draws: at least one full rejection)
-// outside: n = 4 (thorough twin); longer rejection runs; shapes < 1 (H_C20_dirichlet_lt1); IEEE rounding is outside the claim: floats are exact reals; ln/exp/sqrt uninterpreted (DESIGN.md §2.4)
-//verif: maxrand=8 maxsteps=200000
-func H_C20_dirichlet_ge1() {
+// H_C20_dirichlet_unit: Dirichlet(factor, 1,...,1) (the call made by the weighted bootstrap; exponential variates): n strictly positive finite components summing to factor.
+// bounds: n in {3,4}; factor symbolic in (0,1e6]; every outcome of the draws with at most n+2 draws of math/rand per path (rejection loop "u <= 1e-7" cut after 2 extra draws in total: longer rejection runs repeat the same body on fresh draws)
+// outside: n > 4; IEEE rounding is outside the claim: floats are exact reals; ln uninterpreted (ln u < 0 on (0,1))
+//verif: maxrand=6 maxsteps=200000
+func H_C20_dirichlet_unit() {
+	n := nondetRange(3, 4)
 	factor := vfC20Factor()
-	alpha := []float64{vfC20Shape(1, 100), vfC20Shape(1, 100), vfC20Shape(1, 100)}
+	alpha := make([]float64, n)
+	for i := range alpha {
+		alpha[i] = 1
+	}
+	s, err := Dirichlet(factor, alpha...)
+	vfC20CheckSample(s, err, n, factor)
+}
+
+var vfC20ShapesOne = []float64{0.25, 0.5, 1.5, 4}
+
+func vfC20DirichletOne(shape float64) {
+	k := nondetRange(0, 2)
+	factor := vfC20Factor()
+	alpha := []float64{1, 1, 1}
+	alpha[k] = shape
 	s, err := Dirichlet(factor, alpha...)
 	vfC20CheckSample(s, err, 3, factor)
 }
 
-// H_C20_dirichlet_ge1_deep: as H_C20_dirichlet_ge1 with 4 components and a larger draw budget.
-// bounds: n = 4; at most 12 draws per path
-// outside: IEEE rounding is outside the claim: floats are exact reals
-//verif: tier=thorough maxrand=12 maxsteps=200000
-func H_C20_dirichlet_ge1_deep() {
+// H_C20_dirichlet_one: Dirichlet with one non-unit shape (samplers for shape < 1 and > 1) among unit shapes, at any position: n strictly positive finite components summing to factor.
+// bounds: n = 3; one shape in {1/4, 1/2, 3/2, 4} at position 0, 1 or 2, the others 1; factor symbolic in (0,1e6]; at most 6 draws of math/rand per path (4 needed: rejection loops cut after 2 extra draws in total; longer rejection runs repeat the same body on fresh draws)
+// outside: arbitrary shapes (the sampler itself for every shape in [0.01,100]: H_C20_gamma; symbolic shape here: thorough twin); several non-unit shapes (H_C20_dirichlet_lt1, thorough twins); IEEE rounding and underflow are outside the claim: floats are exact reals; ln/exp/pow/sqrt uninterpreted (DESIGN.md §2.4)
+//verif: maxrand=6 maxsteps=200000
+func H_C20_dirichlet_one() {
+	vfC20DirichletOne(vfC20ShapesOne[nondetRange(0, len(vfC20ShapesOne)-1)])
+}
+
+// H_C20_dirichlet_one_deep: as H_C20_dirichlet_one with the non-unit shape symbolic.
+// bounds: the shape symbolic in [0.01,100]
+// outside: IEEE rounding and underflow are outside the claim: floats are exact reals
+//verif: tier=thorough maxrand=6 maxsteps=200000 timeout=60000
+func H_C20_dirichlet_one_deep() {
+	vfC20DirichletOne(vfC20Shape(0.01, 100))
+}
+
+var vfC20ShapesGe1 = []float64{1, 1.5, 4}
+
+// H_C20_dirichlet_ge1: Dirichlet with every shape in {1, 3/2, 4} (Cheng's sampler above 1, the exponential at 1), every combination: n strictly positive finite components summing to factor.
+// bounds: n = 3; shapes in {1, 3/2, 4}^3; factor symbolic in (0,1e6]; at most 7 draws per path (3..6 needed)
+// outside: longer rejection runs; IEEE rounding is outside the claim: floats are exact reals
+//verif: tier=thorough maxrand=7 maxsteps=200000
+func H_C20_dirichlet_ge1() {
 	factor := vfC20Factor()
-	alpha := []float64{vfC20Shape(1, 100), vfC20Shape(1, 100), vfC20Shape(1, 100), vfC20Shape(1, 100)}
+	alpha := make([]float64, 3)
+	for i := range alpha {
+		alpha[i] = vfC20ShapesGe1[nondetRange(0, 2)]
+	}
 	s, err := Dirichlet(factor, alpha...)
-	vfC20CheckSample(s, err, 4, factor)
+	vfC20CheckSample(s, err, 3, factor)
+}
+
+// H_C20_dirichlet_two: Dirichlet with two arbitrary shapes and one unit shape.
+// bounds: n = 3; shapes (a, b, 1) with a, b symbolic in [0.01,100]; factor symbolic in (0,1e6]; at most 6 draws per path (5 needed)
+// outside: IEEE rounding and underflow are outside the claim: floats are exact reals
+//verif: tier=thorough maxrand=6 maxsteps=200000
+func H_C20_dirichlet_two() {
+	factor := vfC20Factor()
+	alpha := []float64{vfC20Shape(0.01, 100), vfC20Shape(0.01, 100), 1}
+	s, err := Dirichlet(factor, alpha...)
+	vfC20CheckSample(s, err, 3, factor)
 }
 
 // H_C20_dirichlet_lt1: Dirichlet with shapes below 1 (Kennedy & Gentle's sampler; Ahrens-Dieter GS): n strictly positive finite components summing to factor.
